@@ -258,3 +258,104 @@ def _show(s, atom, depth=0):
     if d[0] == 'const':
         return repr(d[1])
     return d[0] + '(' + ', '.join(_show(s, x, depth + 1) if isinstance(x, int) else str(x) for x in d[1:]) + ')'
+
+
+# ----------------------------------------------------------------------------- count / sum / min / max update shapes (R9.7 / R10.7)
+def order(s, a, b):
+    """orderings of (a ? b) not excluded by facts and intervals: subset of {'<','=','>'}"""
+    poss = set(s.rel.possible(a, b))
+    ia, ib = s.iv(a), s.iv(b)
+    if not ia.empty and not ib.empty:
+        iv = set()
+        if ia.lo < ib.hi:
+            iv.add('<')
+        if ia.hi > ib.lo:
+            iv.add('>')
+        m = I.meet(Itv(ia.lo, ia.hi, ia.lo_open, ia.hi_open), Itv(ib.lo, ib.hi, ib.lo_open, ib.hi_open))
+        if not m.empty:
+            iv.add('=')
+        poss &= iv
+    return poss
+
+
+def accumulators(ctx, rule, modules, cls, spec, axioms=None):
+    """spec: list of (kind, field, params...) evaluated on the def-use DAG of every accepting path of cls.register:
+         ('count', F)              F := F + 1 on every accepting path
+         ('sum', F, x)             F := F + x on every accumulating path (see `when`)
+         ('prod_sum', F, w, x)     F := F + w*x
+         ('min', F, x) / ('max', F, x)   F := x when x is strictly smaller / larger than the previous F, else unchanged
+       entries may carry when='pos:<param>' meaning: only on paths where that parameter is > 0; unchanged elsewhere."""
+    prog = Program(ctx.prog, set(modules))
+    an = Analyser(prog, axioms=axioms or {}, max_depth=12)
+    inv = an.class_invariant(cls)
+    st = an.instantiate(cls, inv)
+    old = dict(st.fld)
+    ci, fn = prog.resolve(cls, 'register')
+    if fn is None:
+        raise AnalysisError(f'anchor vanished: {cls}.register')
+    an.cur = [(cls, cls, '<entry>')]
+    res = an.inline(st, cls, ci.name, fn, [], {}, None, free_params=True)
+    params = dict(an.entry_params)
+    if not res:
+        raise AnalysisError(f'{rule}: {cls}.register has no accepting path')
+    dc, f2 = ctx.prog.resolve(cls, 'register')
+    for entry in spec:
+        kind, F = entry[0], entry[1]
+        when = entry[-1] if isinstance(entry[-1], str) and entry[-1].startswith('pos:') else None
+        args = [a for a in entry[2:] if not (isinstance(a, str) and a.startswith('pos:'))]
+        bad = []
+        for (rs, _ra) in res:
+            ctx.examined()
+            f0, f1 = old.get(F), rs.fld.get(F)
+            if f0 is None or f1 is None:
+                bad.append(f'{F} unknown')
+                continue
+            active = True
+            if when:
+                w = params.get(when[4:])
+                wiv = rs.iv(w)
+                if wiv.gt0():
+                    active = True
+                elif wiv.is_point() and wiv.lo == 0.0:
+                    active = False
+                else:
+                    active = None
+            d = rs.defs.get(f1)
+            if kind in ('count', 'sum', 'prod_sum'):
+                if active is False:
+                    if f1 != f0:
+                        bad.append(f'{F} changes although {when[4:]} is 0')
+                    continue
+                ok = False
+                if d and d[0] == 'add' and (d[1] == f0 or d[2] == f0):
+                    inc = d[2] if d[1] == f0 else d[1]
+                    if kind == 'count':
+                        ok = rs.defs.get(inc) == ('const', 1)
+                    elif kind == 'sum':
+                        ok = inc == params.get(args[0])
+                    else:
+                        di = rs.defs.get(inc)
+                        ok = bool(di) and di[0] == 'mul' and {di[1], di[2]} == {params.get(args[0]), params.get(args[1])}
+                if not ok:
+                    bad.append(f'{F} becomes `{_show(rs, f1)}`')
+            else:
+                x = params.get(args[0])
+                prev = getattr(rs, 'prev_fld', {}).get(F, f0)
+                if f1 == x or rs.rel.possible(f1, x) == {'='}:
+                    # took the observation: it must be strictly on the right side of what was there before
+                    # (prev is the field value before this store: the old extremum or the +/-inf of the first observation)
+                    o = order(rs, x, prev)
+                    good = o <= ({'<'} if kind == 'min' else {'>'})
+                    if not good:
+                        bad.append(f'{F} := observation although it is not {"smaller" if kind == "min" else "larger"} than the previous {F} (possible orderings {sorted(o)})')
+                else:
+                    # kept a previous value: the observation must not beat it
+                    o = order(rs, x, f1)
+                    good = o <= ({'>', '='} if kind == 'min' else {'<', '='})
+                    if not good:
+                        bad.append(f'{F} keeps its value although the observation may be {"smaller" if kind == "min" else "larger"} (possible orderings {sorted(o)})')
+        ok = not bad
+        ctx.ob(rule, f'{cls}.register:{F}', ok, sample=f'{cls}.register: {F} updated as {kind}({", ".join(args)}){" when " + when[4:] + " > 0" if when else ""} on all {len(res)} accepting paths: {ok}')
+        if not ok:
+            ctx.finding(rule, f'{cls}.register:{F}:{kind}', dc, f2,
+                        f'{F} is not maintained as {kind}({", ".join(args)}) of the registered observations: ' + '; '.join(sorted(set(bad))[:3]), where=f'{dc.name}.register')
